@@ -340,7 +340,7 @@ Theorem C03_programs_with_for_partial :
     lex_ascii inp = Some toks -> counts_modelled toks None = true ->
     unrolls cfg k toks (ldoc_toks lead es) -> (k <= max_for_passes)%nat ->
     compile_warrior cfg inp = COk code start (dmeta (mkPM [] [] []) es).
-Proof. exact for_program_tokens. Qed.
+Proof. intros cfg spell. exact (for_program_tokens spell cfg). Qed.
 Print Assumptions C03_programs_with_for_partial.
 
 (* missing from C03_full_statement: that the token-level relation `unrolls` holds between the rendering of every abstract
